@@ -13,7 +13,9 @@ CLAIMS = {
             "are calls of the caller's equality functor; the raw-== helpers stay unreachable from compute_diff; "
             "R-TRACELCS: every branch of the dispatch on d copies the middle snake's points into the lcs (the d == 1 "
             "branch does not: recorded, replayed finding); R-WINDOW: a window narrowed from both ends by two counters "
-            "cannot invert",
+            "cannot invert; R-EQFORWARD: in the template definitions themselves (instantiated by libabigail or not) "
+            "every call between diff_utils templates names the caller's predicate parameter explicitly, so no overload "
+            "silently falls back to default_eq_functor",
             "correctness and minimality of the edit script",
             "§3 R-EQFUNCTOR; §4 C38"),
     "C40": ("def-use analysis of the HASH_TYPE_ID_STYLE arm of write_context::get_id_for_type",
@@ -41,7 +43,8 @@ CLAIMS = {
             "the very section they point into (provenance); R-ELFALLOC: no allocation is sized from an unvalidated "
             "section-header count; R-LOOPPROG (termination): no loop reachable from the readers relies for its progress on a "
             "callee that may decline to write its out-parameter while the result of the call is discarded (one site "
-            "found - abidw hung on a `../` .gnu_debugaltlink - and repaired)",
+            "found - abidw hung on a `../` .gnu_debugaltlink - and repaired); R-ELFBOUND/WRAP: a size test over a sum of "
+            "file-derived counts is evaluated in a type wider than the counts, or written so that nothing can wrap",
             "elfutils' own memory safety; the DWARF part of the reader; ppc64-only paths are listed as undecided",
             "§3 R-ELFNULL, R-ELFBOUND, R-INASSERT; §4 C34"),
     "C43": ("finite-world interpretation of every accessor that switches over die_source, reaching-enumerator dataflow over "
@@ -195,7 +198,8 @@ CLAIMS = {
             "constant subscripts are size-guarded, and every assertion / abort that depends on document content "
             "without a dominating check is either absent or a recorded, replayed finding (26 today); R-VFNCLASS: "
             "virtual-ness is only set on methods whose scope has static type class_decl_sptr (typed provenance through "
-            "helpers)",
+            "helpers); R-FILTERSYM: in the categorisation filters (abg-comp-filter.cc) a function's or variable's ELF "
+            "symbol - null for a declaration without symbol - is tested before it is dereferenced",
             "general memory safety beyond these three fault classes; nine assertion sites are listed as undecided "
             "(sa/tables/c33_tables.json)",
             "§3 R-NULLABLE, R-IDX, R-INASSERT; §4 C33"),
@@ -212,10 +216,17 @@ CLAIMS = {
             "rule over constructors/stores, size-fact dataflow for constant subscripts, assertion classification",
             "no null regex reaches regex::match; results of the INI parser's nullable producers are checked before "
             "every dereference; every property object always holds a value; constant subscripts / front / back are "
-            "dominated by a size fact; no assertion on a nullable producer result without a dominating check",
-            "hangs and memory errors outside these classes; the INI reader's peek/read consistency assertions are "
-            "treated as internal",
-            "§3 R-RXNULL, R-NULLABLE, R-IDX, R-INASSERT; §4 C25"),
+            "dominated by a size fact (also through helpers that are a bare back()/front() of their argument); no "
+            "assertion on a nullable producer result without a dominating check; INV-FNCALLEXPR: an insertion-range "
+            "boundary never wraps a null function call expression; R-SYMOWN: a suppressed ELF symbol is owned by the "
+            "symtab before it is linked into an alias ring; R-PARSEPROG: a parse loop of the INI reader whose "
+            "sub-parsers decline passes a consumer or leaves (no hang on a malformed tuple); R-READCONTRACT / R-READPRE: "
+            "abstract execution of the reader's stream primitives over (put-back buffer, stream) states shows that "
+            "read_next_char() succeeds whenever good() held after peek(), and every asserted read_next_char() is "
+            "preceded by that test",
+            "memory errors and hangs outside these classes (the library model of std::istream / std::vector used by "
+            "R-READCONTRACT is assumed)",
+            "§3 R-RXNULL, R-NULLABLE, R-IDX, R-INASSERT; §4 C25; §8.6 C25"),
     "C32": ("lockset / typestate dataflow over the CFGs of abg-workers.cc (must/may held sets), path exploration with "
             "correlated-branch pruning, waiter/mutation table derived from the loop conditions",
             "lock/unlock pairing on all paths, every guarded field accessed under its mutex (a std::atomic field may be "
@@ -247,7 +258,8 @@ CLAIMS = {
             "with a failed load (null corpus / group) abidiff and abicompat can only exit with the ERROR bit; "
             "read_corpus_from_elf never pairs a null corpus with STATUS_OK; the ABIXML entry points return non-null "
             "only after a null-checked full expansion of the root element; R-XMLSRC: documents come from libxml2's "
-            "pull reader (or from a push parser that is terminated unconditionally before its result is read)",
+            "pull reader (or from a push parser that is terminated unconditionally before its result is read); R-SYMSRC: "
+            "a binary whose own symbol table cannot be loaded is not silently given the one of its debug-info file",
             "that libxml2 / elfutils fail on every corruption",
             "§3 R-LOADFAIL, R-EXPAND; §4 C09"),
     "C30": ("exit-status abstract interpretation of abipkgdiff (kill rule, field-wise accumulation, marker predicate) "
@@ -374,7 +386,8 @@ CLAIMS = {
             "defined x binding x visibility), R-SYMKIND (type filter of load_ o conversion o is_function/is_variable is a "
             "partition of what is loaded), R-SYMFILTER (corpus filter evaluated by symtab_filter::matches = public && kind), "
             "R-SYMSECT (writer sections), R-SYMSEL (.symtab/.dynsym choice per e_type), R-SYMALIAS (same address => alias "
-            "of the symbol found there), R-VERDEFAULT (default mark = negated hidden bit)",
+            "of the symbol found there), R-VERDEFAULT (default mark = negated hidden bit), R-SYMSRC (the symbol table is "
+            "loaded from the ELF handle of the binary itself, never from the debug-info file)",
             "names, sizes, addresses, version strings and the alias groups themselves are values read from the binary; "
             "agreement with readelf on them is runtime",
             "§8.6 (added after the design: C18 was first declared not applicable)"),
@@ -392,7 +405,8 @@ CLAIMS = {
     "C21": ("AST shape rule over all overriders of diff::has_changes (sibling agreement) + operand-pairing rule over "
             "the ir::equals overloads",
             "every artifact diff's has_changes() is the negation of the IR deep-equality operator applied to the "
-            "node's own first/second subjects; one deviant sibling (array_diff) is a recorded finding. R-EQSYM: every "
+            "node's own first/second subjects; one deviant sibling (array_diff) is a recorded finding - R-HASCHG/ARRAY "
+            "keeps its hand-written comparison looking at the arrays' dimensions (names / subranges). R-EQSYM: every "
             "==/!= inside an ir::equals(l, r, k) overload whose operands derive from the parameters pairs the same "
             "accessor path of l and of r (or is a same-side bound, an end() sentinel, or a mirrored constant test); "
             "every boolean predicate applied to one operand has its mirror on the other (found: equals(enum_type_decl) "
